@@ -1123,7 +1123,12 @@ func (u *Unit) atCallChecks(fr *Frame, st *State, c *ssa.CallCommon, fn Val, arg
 		}
 	}
 	for _, at := range fr.contract.AtCalls {
-		if !strings.Contains(key, at.Callee) {
+		if strings.HasSuffix(at.Callee, "$") {
+			// "name$": the callee name ends here (Write$ does not match WriteHeader)
+			if !strings.HasSuffix(key, strings.TrimSuffix(at.Callee, "$")) {
+				continue
+			}
+		} else if !strings.Contains(key, at.Callee) {
 			continue
 		}
 		label := at.Clause.Label
